@@ -74,7 +74,8 @@ def _install_mode_validator(mode: T.List[T.Union[str, bool, int]]) -> T.Optional
     """
     if not mode:
         return None
-    if True in mode:
+    # `True in mode` would also match the number 1 (1 == True), which is a valid uid / gid
+    if any(m is True for m in mode):
         return 'components can only be permission strings, numbers, or False'
     if len(mode) > 3:
         return 'may have at most 3 elements'
